@@ -8,12 +8,13 @@ an injected platform fault. The oracle is computed from the JSON spec and the co
 (``vf/proj/serving.py``) - never from the engine.
 
 Campaigns:
-* warm - the long-lived engine of this process (descriptor cache and executors warmed by ``WARMUP``), batches of 1-64.
-* cold - every batch gets a fresh engine and is fired at the cold descriptor cache with a slow inventory.
+* small / mid / big - batches of 1-7 / 8-31 / 32-64 requests on the long-lived, warmed engine of this process.
+* cold - every batch (1-16 requests) gets a fresh engine and is fired at the cold descriptor cache with a slow inventory.
 """
 import atexit
 import os
 import sys
+import time
 
 
 def _quiet_forml_logging() -> None:
@@ -38,6 +39,12 @@ def _quiet_forml_logging() -> None:
 
 _quiet_forml_logging()
 
+if os.environ.get('VERIF_C16_DEBUG'):  # dev aid: kill -USR1 <pid> dumps all thread stacks to stderr
+    import faulthandler
+    import signal
+
+    faulthandler.register(signal.SIGUSR1, all_threads=True)
+
 # pylint: disable=wrong-import-position
 from hypothesis import strategies as st
 
@@ -51,7 +58,7 @@ ID = 'C16'
 LEVEL = 'fault_enumeration'
 RULE = (
     'Hypothesis-generated request batches fired concurrently on one loop at a real serving Engine (pool size 2 in the '
-    'quick tier, 1-4 across thorough shards) over 4 trained model generations with distinct constants and 7 applications '
+    'quick tier, 1-4 across the 8 thorough shards) over 4 trained model generations with distinct constants and 7 applications '
     '(Explicit/Latest/ABTest selectors, two pairs sharing an instance). A batch = 1-64 requests over 1-3 applications, '
     'each with 1-4 payload rows carrying unique tokens, a payload-carried processing delay (0-80 ms), a pre-send stagger, '
     'request/accept encodings, and a fault in {none, unsupported content type, unsupported accept, unknown application, '
@@ -73,8 +80,8 @@ ASSUMPTIONS = [
     'most batches run behind a warm-up (one sequential request, then one per application) so that the known '
     'first-request race of the descriptor cache does not hide everything else; cold batches are counted separately',
 ]
-FLOORS = {'size:8+': 0.25, 'fault:any': 0.3, 'apps:2+': 0.25, 'selector:abtest': 0.06, 'cold': 0.04, 'nonmonotone': 0.25}
-SHARDS_THOROUGH = 16
+FLOORS = {'size:8+': 0.5, 'size:32-64': 0.15, 'fault:any': 0.4, 'apps:2+': 0.25, 'selector:abtest': 0.06, 'cold': 0.04, 'nonmonotone': 0.4}
+SHARDS_THOROUGH = 8  # two shards per pool size 1-4; every shard runs its own engine with ~20 processes
 LEVEL_TEXT = (
     'Fault enumeration over sampled schedules: generated batches of concurrent requests with injected platform faults '
     '(each fault kind at arbitrary batch positions) are fired at a real engine with spawned model pools and every '
@@ -117,13 +124,13 @@ def request_spec(draw, apps):
 
 
 @st.composite
-def batch_spec(draw, procs: int, cold: bool):
-    napps = draw(st.sampled_from([1, 2, 2, 3, 3]))
+def batch_spec(draw, procs: int, cold: bool, lo: int, hi: int):
+    napps = draw(st.sampled_from([2, 1, 3, 2, 3]))
     apps = draw(st.lists(st.sampled_from(sv.APP_NAMES), min_size=napps, max_size=napps, unique=True))
     if cold:
         size = draw(st.sampled_from([2, 3, 4, 1, 8, 16, 2]))
     else:
-        size = draw(st.sampled_from([1, 2, 3, 5, 8, 8, 12, 16, 16, 24, 32, 48, 64]))
+        size = draw(st.integers(lo, hi))
     reqs = [draw(request_spec(apps)) for _ in range(size)]
     spec = {'procs': procs, 'cold': cold, 'nonce': draw(st.integers(1, 10**6)), 'reqs': reqs}
     if cold:
@@ -274,8 +281,12 @@ def _documented(fault: str, exc: BaseException) -> bool:
 
 
 # ---- sessions --------------------------------------------------------------------------------------------------------
-_STATE = {'phase': 'pre', 'sessions': {}, 'registry': None, 'atexit': False, 'dead': {}, 'confirmed': 0}
+_STATE = {'phase': 'pre', 'sessions': {}, 'registry': None, 'atexit': False, 'dead': {}, 'confirmed': 0, 'rechecks': 0, 't0': 0.0}
 MAX_CONFIRMED_TIMEOUTS = 1  # per process: confirming costs two fresh engines and three deadlines
+MAX_TIMEOUT_RECHECKS = 3  # per process: on an overloaded machine re-checking every slow batch only adds load
+#: wall-clock budget (s) of the generated search of one process; batches drawn after it are skipped and reported as
+#: inconclusive coverage (never as a violation). The quick tier is bounded by its case counts, this is a safety net.
+BUDGET_S = {'quick': 400.0, 'thorough': 720.0}
 
 
 def _registry(ctx) -> str:
@@ -363,10 +374,13 @@ def _run(ctx, spec: dict, session, tags: list, first_use: bool) -> int:
 
 def _confirm_timeout(ctx, spec: dict, tags: list) -> None:
     """A batch did not complete: try it on two fresh engines; a violation only if it times out on both."""
-    if _STATE['confirmed'] >= MAX_CONFIRMED_TIMEOUTS and _STATE['phase'] == 'explore':
+    if _STATE['phase'] == 'explore' and (
+        _STATE['confirmed'] >= MAX_CONFIRMED_TIMEOUTS or _STATE['rechecks'] >= MAX_TIMEOUT_RECHECKS
+    ):
         _bump(ctx, 'batch_timeouts_not_rechecked')
-        _note(ctx, 'further batch timeout after a confirmed one: not re-checked on fresh engines')
+        _note(ctx, 'batch timeout not re-checked on fresh engines (re-check quota of this process used up)')
         return
+    _STATE['rechecks'] += 1
     cold = bool(spec['cold'])
     for attempt in (1, 2):
         sub = type(ctx)(ctx.pid, ctx.tier, ctx.seed, ctx.level)
@@ -422,6 +436,11 @@ def classes_of(spec: dict) -> tuple[list, bool]:
 
 
 def check_batch(ctx, spec: dict) -> None:
+    if _STATE['phase'] == 'explore' and time.time() - _STATE['t0'] > _budget(ctx):
+        if not ctx.extra.get('batches_skipped_budget'):
+            _note(ctx, f'wall-clock budget of {_budget(ctx):.0f}s used up: remaining generated batches skipped')
+        _bump(ctx, 'batches_skipped_budget')
+        return
     classes, nontrivial = classes_of(spec)
     ctx.case(spec, nontrivial=nontrivial, classes=classes)
     _bump(ctx, 'requests_fired', len(spec['reqs']))
@@ -448,6 +467,10 @@ def check_batch(ctx, spec: dict) -> None:
         _confirm_timeout(ctx, spec, tags)
 
 
+def _budget(ctx) -> float:
+    return float(os.environ.get('VERIF_C16_BUDGET_S') or BUDGET_S.get(ctx.tier, 400.0))
+
+
 def _procs(ctx) -> int:
     if ctx.tier == 'thorough' and 'shard' in ctx.extra:
         return 1 + int(ctx.extra['shard']) % 4
@@ -456,9 +479,12 @@ def _procs(ctx) -> int:
 
 def campaigns(ctx):
     procs = _procs(ctx)
+    # the size classes are separate campaigns so that their shares do not depend on Hypothesis' sampling bias
     return [
-        Campaign('warm', batch_spec(procs, False), check_batch, 22, 90),
-        Campaign('cold', batch_spec(procs, True), check_batch, 4, 6),
+        Campaign('small', batch_spec(procs, False, 1, 7), check_batch, 5, 40),
+        Campaign('mid', batch_spec(procs, False, 8, 31), check_batch, 11, 90),
+        Campaign('big', batch_spec(procs, False, 32, 64), check_batch, 6, 50),
+        Campaign('cold', batch_spec(procs, True, 1, 16), check_batch, 4, 12),
     ]
 
 
@@ -466,6 +492,7 @@ def explore(ctx, shard: int, nshards: int) -> None:
     from vf.core import hyp  # pylint: disable=import-outside-toplevel
 
     _STATE['phase'] = 'explore'
+    _STATE['t0'] = time.time()
     try:
         for i, camp in enumerate(campaigns(ctx)):
             n = camp.quick if ctx.tier == 'quick' else camp.thorough
